@@ -1059,6 +1059,10 @@ func builtinNoOtherKeys(env *lisp.LEnv, args *lisp.LVal) *lisp.LVal {
 	}
 	// NB these aren't normal functions - they aren't looking for an array of args
 	return newValidator(lisp.Formals("input"), func(env *lisp.LEnv, input *lisp.LVal) *lisp.LVal {
+		// input.Map() panics on anything else; see builtinWhen.
+		if input.Type != lisp.LSortMap {
+			return lisp.ErrorConditionf(WrongType, "Input is not sorted map")
+		}
 		allowedKeys := make(map[string]bool)
 		for _, c := range constraints {
 			val := applyConstraint(env, c, input)
